@@ -16,7 +16,7 @@ PROPERTY = "C14"
 BOUNDS = ("3 mark types (thorough: 4), one of them with an integer attribute and two instances whose attribute "
           "values are unbounded symbolic ints; arbitrary (symbolic) exclusion relation incl. self-exclusion; every "
           "subset of the instances that is canonical under that relation; spec-string renderings: explicit names, "
-          "'_', '', absent, group names")
+          "'_', '', absent, group names (incl. a group whose name contains another group's name); same_set on two orders of the same members")
 ASSUMPTIONS = ["mutual exclusion is resolved as upstream does (going through the set in order, the new mark "
                "drops marks it excludes before a present mark can veto it); the statement does not decide that case"]
 
